@@ -13,7 +13,7 @@
                    valid parameters P -> observed = Project.spec_read P (projection of the full
                                          read, container bound), and the store is unchanged *)
 From Coq Require Import ZArith List Bool Strings.Byte Strings.String.
-From YV Require Import Base.Verdict Val.Model Tree.Schema Tree.Merge Tree.PathExpr Tree.Params Tree.Project.
+From YV Require Import Base.Verdict Val.Model Tree.Schema Tree.Editor Tree.Merge Tree.PathExpr Tree.Params Tree.Project.
 Import ListNotations.
 Open Scope Z_scope.
 
@@ -136,7 +136,13 @@ Definition classify (c : case) : verdict :=
   | CRead kids data q asts unchanged o =>
       let dom := forallb choice_free kids && forallb wf_schema kids
                  && shaped (SCont root_meta kids) (DCont data) in
-      let corr := res_eqb (read_query kids data q) o in
+      (* the reader without constraints is the shared export model (TREE.md: export = edit into
+         an empty target), checked on every case *)
+      let bridge := match edit_content false kids data (empty_content kids) Upsert, read_content None kids data with
+                    | Ok c, POk c' => content_eqb c c'
+                    | _, _ => false
+                    end in
+      let corr := res_eqb (read_query kids data q) o && (bridge || negb dom) in
       let spec :=
         if dom then
           match interpret q asts with
